@@ -1,0 +1,52 @@
+//go:build verif
+
+package tendermint
+
+import (
+	"github.com/NethermindEth/juno/consensus/types"
+	"github.com/NethermindEth/juno/consensus/votecounter"
+)
+
+// VerifState is a copy of the unexported consensus state of a state machine for the /verif harness (C12):
+// the harness compares it, and the vote counter, with the Coq model's state after every call.
+// Add-only, compiled only with the "verif" build tag.
+type VerifState[V types.Hashable[H], H types.Hash] struct {
+	Height                        types.Height
+	Round                         types.Round
+	Step                          types.Step
+	LockedValue                   *V
+	LockedRound                   types.Round
+	ValidValue                    *V
+	ValidRound                    types.Round
+	TimeoutPrevoteScheduled       bool
+	TimeoutPrecommitScheduled     bool
+	LockedValueAndOrValidValueSet bool
+	IsHeightStarted               bool
+	LastTriggerSync               types.Height
+	LastQuorum                    types.Height
+}
+
+// VerifInspect returns the state of a state machine created by New and its vote counter (read-only use).
+func VerifInspect[V types.Hashable[H], H types.Hash, A types.Addr](
+	m StateMachine[V, H, A],
+) (VerifState[V, H], *votecounter.VoteCounter[V, H, A], bool) {
+	s, ok := m.(*stateMachine[V, H, A])
+	if !ok {
+		return VerifState[V, H]{}, nil, false
+	}
+	return VerifState[V, H]{
+		Height:                        s.state.height,
+		Round:                         s.state.round,
+		Step:                          s.state.step,
+		LockedValue:                   s.state.lockedValue,
+		LockedRound:                   s.state.lockedRound,
+		ValidValue:                    s.state.validValue,
+		ValidRound:                    s.state.validRound,
+		TimeoutPrevoteScheduled:       s.state.timeoutPrevoteScheduled,
+		TimeoutPrecommitScheduled:     s.state.timeoutPrecommitScheduled,
+		LockedValueAndOrValidValueSet: s.state.lockedValueAndOrValidValueSet,
+		IsHeightStarted:               s.isHeightStarted,
+		LastTriggerSync:               s.lastTriggerSync,
+		LastQuorum:                    s.lastQuorum,
+	}, &s.voteCounter, true
+}
